@@ -286,7 +286,7 @@ theorem items_ok : ∀ (n : Nat) (m : M), C12.depth m ≤ n → Printable m → 
             simp [Atom.WF, getSpecifier, hv', MOp.toGOp?]
           · have h1 : nm ≠ "extra" := hn.2.2.1
             simp only [h1, if_false, hn.2.2.2, Bool.false_eq_true, hn.2.1]
-            exact hn
+            exact Or.inl hn
     | neM nm vs =>
       have hn : StrName nm := by simpa [GAll, Good] using hg
       obtain ⟨t, ht, _⟩ := eq_token env he nm "" hn k0
@@ -317,7 +317,7 @@ theorem items_ok : ∀ (n : Nat) (m : M), C12.depth m ≤ n → Printable m → 
             simp [Atom.WF, getSpecifier, hv', MOp.toGOp?]
           · have h1 : nm ≠ "extra" := hn.2.2.1
             simp only [h1, if_false, hn.2.2.2, Bool.false_eq_true, hn.2.1]
-            exact hn
+            exact Or.inl hn
     | multi ms =>
       have hdl : C12.depthL ms ≤ n := by simp only [C12.depth] at hd; omega
       have hkl : C12.depthL ms ≤ k0 := by simp only [C12.depth] at hk; omega
